@@ -767,22 +767,70 @@ func c08EventFields(r *core.Run, m *evMethod) {
 			}
 		}
 	}
+	// the Event may come from a constructor helper of the package (ev := r.newEvent(name)): the
+	// allocation it returns, with the helper's parameters read as this call's arguments, plus the
+	// members the method fills in afterwards
+	var ctor *ssa.Call
+	var ctorRs *core.Resolver
+	if ev == nil {
+		for _, c := range m.L {
+			for _, arg := range c.Common().Args {
+				call, ok := arg.(*ssa.Call)
+				if !ok || core.TypeName(call.Type()) != "Event" {
+					continue
+				}
+				cal := call.Common().StaticCallee()
+				if cal == nil || len(cal.Blocks) == 0 || cal.Pkg != fn.Pkg {
+					continue
+				}
+				var made *ssa.Alloc
+				okCtor := true
+				for _, ret := range core.Returns(cal) {
+					a, isA := ret.Results[0].(*ssa.Alloc)
+					if !isA || (made != nil && made != a) {
+						okCtor = false
+					}
+					made = a
+				}
+				if okCtor && made != nil {
+					ev, ctor = made, call
+					ctorRs = core.NewResolver()
+					ctorRs.Bind(call)
+				}
+			}
+		}
+	}
 	if ev == nil {
 		r.Bad("O5", fname, "event-literal", p.Pos(fn.Pos()), "listeners are not passed a freshly built Event")
 		return
 	}
 	stores := map[string]ssa.Value{}
-	for _, rf := range *ev.Referrers() {
-		fa, ok := rf.(*ssa.FieldAddr)
-		if !ok || fa.Referrers() == nil {
-			continue
+	collect := func(base ssa.Value, rs *core.Resolver) {
+		if base.Referrers() == nil {
+			return
 		}
-		f, _ := core.FieldOf(fa)
-		for _, rr := range *fa.Referrers() {
-			if st, ok := rr.(*ssa.Store); ok && st.Addr == fa {
-				stores[f.Name] = st.Val
+		for _, rf := range *base.Referrers() {
+			fa, ok := rf.(*ssa.FieldAddr)
+			if !ok || fa.Referrers() == nil {
+				continue
+			}
+			f, _ := core.FieldOf(fa)
+			for _, rr := range *fa.Referrers() {
+				if st, ok := rr.(*ssa.Store); ok && st.Addr == fa {
+					v := st.Val
+					if rs != nil {
+						if w := rs.R(core.Strip(v)); w != core.Strip(v) {
+							v = w // a parameter of the constructor: what this call passes for it
+						}
+					}
+					stores[f.Name] = v
+				}
 			}
 		}
+	}
+	collect(ev, ctorRs)
+	if ctor != nil {
+		collect(ctor, nil)
 	}
 	// subject suffix of the publish: everything after the resource name
 	suffix := ""
